@@ -187,6 +187,28 @@ def run(item):
                         v = ch.violations.pop()
                         V('homomorphism:%s' % g, lab, 'sampled expression differs from the expression of the sampled ingredients: %s' % {k: v.get(k) for k in ('how', 'impl', 'ref')},
                           inst.pts[v['point']] if v.get('point') is not None else None)
+    # twin (vacuity): the homomorphism check must tell apart an expression evaluated with the control of the NEXT point
+    twins_ok = twins_bad = 0
+    for (name, gi), ents in groups.items():
+        if name != exprs[0][0] or grids[gi][0] != 'control-' or not spec.nu:
+            continue
+        e_idx = [i for k, w, i in ents if k == 'expr'][0]
+        uvals = [ex[0][i] for k, w, i in ents if k == 'leaf' and w[0] == 'u']
+        if not uvals or len(uvals[0]) < 2:
+            continue
+        mat = dict(exprs)[name]
+        lv0 = {w: ex[0][i] for k, w, i in ents if k in ('leaf', 'valueleaf')}
+
+        def leaf_shift(op, args):
+            v = lv0[(op,) + tuple(args)]
+            if op in ('T', 't0', 'tf'):
+                return v[0]
+            return v[1] if op == 'u' else v[0]
+        wrong = ev(mat[0][0], leaf_shift, inst.fdom)
+        if not close(wrong, ex[0][e_idx][0]):
+            twins_ok += 1
+        else:
+            twins_bad += 1
     # anchors against the reference trajectory
     trs = {d: inst.traj(d) for d in doms}
     refs = {d: Ref(trs[d]) for d in doms}
@@ -316,7 +338,7 @@ def run(item):
             V('layout', 'DM2numpy(%s,%s)' % (name, g), 'array returned for an %dx%d expression on %d time points has shape %s / wrong entry order (expected %s, entry [i,r,c] = element (r,c) at time i)' % (r_, c_, npts, arr.shape, want_shape))
         else:
             ch.proved.append('layout %s@%s' % (name, g))
-    r = result(inst, ch, {'violations': viol, 'shape': '%s|%s' % (cfg.tag(), spec.t0[0] + '/' + spec.T[0]),
+    r = result(inst, ch, {'violations': viol, 'twins_ok': twins_ok, 'twins_bad': twins_bad, 'shape': '%s|%s' % (cfg.tag(), spec.t0[0] + '/' + spec.T[0]),
                           'sample': {'cfg': cfg.tag(), 'expressions': [(n_, repr(m)) for n_, m in exprs][:3], 'grids': [g + str(kw) for g, kw in grids], 'proved': len(ch.proved)}})
     if viol:
         r['status'] = 'violation'
